@@ -27,6 +27,8 @@ const modPath = "github.com/yuin/goldmark"
 
 var libDirs = []string{".", "ast", "parser", "renderer", "renderer/html", "text", "util", "extension", "extension/ast"}
 
+var funcNames []string // id -> package-qualified function name (for the coverage report)
+
 var syncMap = map[string]string{"Once": "Once", "Mutex": "Mutex", "RWMutex": "RWMutex", "Pool": "Pool"}
 
 func fatal(f string, a ...any) {
@@ -62,6 +64,7 @@ func main() {
 					continue
 				}
 				src := filepath.Join(dir, n)
+				curPkgLabel = d
 				res := instrumentFile(src)
 				if res.pkg == "" {
 					continue
@@ -102,6 +105,8 @@ func main() {
 			}
 		}
 	}
+	fb, _ := json.Marshal(funcNames)
+	_ = os.WriteFile(filepath.Join(out, "funcs.json"), fb, 0o644)
 	ob, _ := json.MarshalIndent(map[string]any{"Replace": overlay}, "", " ")
 	if err := os.WriteFile(filepath.Join(out, "overlay.json"), ob, 0o644); err != nil {
 		fatal("%v", err)
@@ -116,6 +121,8 @@ type result struct {
 	globals []string
 	active  bool // file is part of the default build (no excluding build constraint)
 }
+
+var curPkgLabel string
 
 func instrumentFile(path string) result {
 	fset := token.NewFileSet()
@@ -185,6 +192,11 @@ func instrumentFile(path string) result {
 	call := func(name string) ast.Stmt {
 		return &ast.ExprStmt{X: &ast.CallExpr{Fun: &ast.SelectorExpr{X: ast.NewIdent("vsched"), Sel: ast.NewIdent(name)}}}
 	}
+	callID := func(id int) ast.Stmt {
+		return &ast.ExprStmt{X: &ast.CallExpr{Fun: &ast.SelectorExpr{X: ast.NewIdent("vsched"), Sel: ast.NewIdent("C")},
+			Args: []ast.Expr{&ast.BasicLit{Kind: token.INT, Value: fmt.Sprint(id)}}}}
+	}
+	_ = callID
 	instrBlock = func(list []ast.Stmt, first bool) []ast.Stmt {
 		out := make([]ast.Stmt, 0, 2*len(list))
 		for i, s := range list {
@@ -199,15 +211,24 @@ func instrumentFile(path string) result {
 		return out
 	}
 	funcBodies := map[*ast.BlockStmt]bool{}
+	funcName := map[*ast.BlockStmt]string{}
 	clauseLists := map[*ast.BlockStmt]bool{} // bodies of switch/select: lists of clauses, not statements
 	ast.Inspect(f, func(n ast.Node) bool {
 		switch x := n.(type) {
 		case *ast.FuncDecl:
 			if x.Body != nil {
 				funcBodies[x.Body] = true
+				nm := x.Name.Name
+				if x.Recv != nil && len(x.Recv.List) > 0 {
+					var rb bytes.Buffer
+					_ = printer.Fprint(&rb, fset, x.Recv.List[0].Type)
+					nm = "(" + rb.String() + ")." + nm
+				}
+				funcName[x.Body] = curPkgLabel + ":" + nm
 			}
 		case *ast.FuncLit:
 			funcBodies[x.Body] = true
+			funcName[x.Body] = fmt.Sprintf("%s:func@%s:%d", curPkgLabel, filepath.Base(path), fset.Position(x.Pos()).Line)
 		case *ast.SwitchStmt:
 			clauseLists[x.Body] = true
 		case *ast.TypeSwitchStmt:
@@ -222,6 +243,11 @@ func instrumentFile(path string) result {
 		case *ast.BlockStmt:
 			if !clauseLists[x] {
 				x.List = instrBlock(x.List, funcBodies[x])
+				if funcBodies[x] && len(x.List) > 0 {
+					id := len(funcNames)
+					funcNames = append(funcNames, funcName[x])
+					x.List = append([]ast.Stmt{callID(id)}, x.List...)
+				}
 			}
 		case *ast.CaseClause:
 			x.Body = instrBlock(x.Body, false)
